@@ -654,6 +654,13 @@ MUTANTS = [
     Mutant("C13", "disconnect-handler-stringifies-the-hooks-exception", "C13-R1", ST, "ClientConnectionJob.__call__",
            lambda f, t: replace_stmt(f, lambda s: isinstance(s, ast.Expr) and u(s) == "log.warning('Error in clientDisconnect: %s', x)",
                                      stmts("log.warning('Error in clientDisconnect: ' + str(x))")), also=("C09",)),
+    Mutant("C11", "call-list-rebound-after-submission", "C11-R4", C, "BatchProxy.__call__",
+           lambda f, t: replace_stmt(f, lambda s: isinstance(s, ast.Expr) and u(s) == "self.__calls.clear()", stmts("self.__calls = []"))),
+    Mutant("C12", "blob-annotation-written-into-the-callers-dict", "C12-R5", C, "Proxy._pyroInvoke",
+           lambda f, t: delete_stmt(f, lambda s: isinstance(s, ast.Assign) and u(s) == "annotations = dict(annotations)")),
+    Mutant("C16", "uri-built-after-the-registry-store", "C16-R2", S, "Daemon.register",
+           lambda f, t: (delete_stmt(f, lambda s: isinstance(s, ast.Assign) and u(s) == "uri = self.uriFor(objectId)"),
+                         replace_stmt(f, lambda s: isinstance(s, ast.Return) and u(s) == "return uri", stmts("return self.uriFor(objectId)")))),
 ]
 
 
